@@ -24,6 +24,8 @@ A missing anchor is a broken tie: the list then lacks that fact and the lock lem
   BF_TsAssignSites       the assignments to a group's `.transform` / `.abs_transform` outside of a constructor, in all of
                          crates/usvg/src/parser, are exactly the sites the model's group kinds (GK_Plain, GK_ViaUse, GK_ClipWrap,
                          sub-tree roots SR_*) were written against: (file, function, field, count) table
+  BF_SynthClipBoxes      fd607e1: the three synthesised viewport clip paths (marker.rs, use_node.rs clip_element, image.rs) push their
+                         Path::new_simple rectangle into the root and call root.calculate_bounding_boxes() right after
   BF_UseChildrenAbs      use_node::convert_children: parent.abs_transform temporarily pre_concat(transform), g.transform = transform
   BF_BackgroundAbs       convert_doc / background_path: the background rectangle is built by Path::new with root_ts as abs_transform
   BF_NewSimpleClipOnly   Path::new_simple (identity abs_transform) is called only for the clip rectangles of image.rs, marker.rs, use_node.rs
@@ -128,7 +130,7 @@ TS_ASSIGN_SITES = sorted([
     ('paint_server.rs', 'convert_pattern', 'g.transform', 1), ('paint_server.rs', 'convert_pattern', 'g.abs_transform', 1),  # SR_PatternViewBox
     ('paint_server.rs', 'push_pattern_transform', 'g.transform', 1), ('paint_server.rs', 'push_pattern_transform', 'g.abs_transform', 1),
     ('paint_server.rs', 'to_user_coordinates', 'base.transform', 2),                                                  # gradients (no group)
-    ('use_node.rs', 'convert', 'g.abs_transform', 1), ('use_node.rs', 'convert', 'g2.transform', 1), ('use_node.rs', 'convert', 'g.transform', 1),
+    ('use_node.rs', 'convert', 'g.abs_transform', 1), ('use_node.rs', 'convert', 'g2.transform', 1),    # (the reset of g.transform in the symbol branch without clip went with 214a8de)
     ('use_node.rs', 'convert_svg', 'g.abs_transform', 1),
     ('use_node.rs', 'convert_children', 'parent.abs_transform', 2), ('use_node.rs', 'convert_children', 'g.transform', 1),
 ])
@@ -231,7 +233,24 @@ def generate(api):
                        % (sorted(set(table) - set(TS_ASSIGN_SITES)), sorted(set(TS_ASSIGN_SITES) - set(table))))
     except Exception as e:
         api.broken('table', 'BBoxTables.BF_TsAssignSites', PROPS, e)
-    names = [n for n, _, _ in FACTS] + ['BF_NewSimpleClipOnly', 'BF_RenderNodeSingleExit', 'BF_GroupTsOnce', 'BF_TsAssignSites']
+    # fd607e1: every root that receives a Path::new_simple rectangle gets its boxes calculated
+    try:
+        okc = True
+        why = []
+        for rel, var in (('crates/usvg/src/parser/marker.rs', 'clip_path'), ('crates/usvg/src/parser/use_node.rs', 'clip_path'), (IMAGE, 'clip')):
+            t = norm(api.rd(rel))
+            n_push = len(re.findall(r"%s\.root\.children\.push\(Node::Path\(Box::new\(path\)\)\);" % var, t))
+            n_both = len(re.findall(r"%s\.root\.children\.push\(Node::Path\(Box::new\(path\)\)\); %s\.root\.calculate_bounding_boxes\(\);" % (var, var), t))
+            if n_push != 1 or n_both != 1:
+                okc = False
+                why.append("%s: %d pushes, %d followed by calculate_bounding_boxes" % (rel.split('/')[-1], n_push, n_both))
+        if okc:
+            found.append('BF_SynthClipBoxes')
+        else:
+            api.broken('table', 'BBoxTables.BF_SynthClipBoxes', PROPS, '; '.join(why))
+    except Exception as e:
+        api.broken('table', 'BBoxTables.BF_SynthClipBoxes', PROPS, e)
+    names = [n for n, _, _ in FACTS] + ['BF_NewSimpleClipOnly', 'BF_RenderNodeSingleExit', 'BF_GroupTsOnce', 'BF_TsAssignSites', 'BF_SynthClipBoxes']
     out = [api.HEADER, "From Coq Require Import List.\nImport ListNotations.\n",
            "Inductive bbox_fact :=\n  | " + "\n  | ".join(names) + ".\n",
            "Definition bbox_facts : list bbox_fact := [%s].\n" % "; ".join(found),
